@@ -27,7 +27,7 @@ BUDGET = {
 
 ARGS = st.lists(st.one_of(st.integers(-1, 3), st.sampled_from(['a', '']), st.none(), st.booleans(), st.lists(st.integers(0, 2), max_size=2)), max_size=3)
 KWARGS = st.dictionaries(st.sampled_from(['p', 'q', 'r']), st.one_of(st.integers(0, 3), st.sampled_from(['x']), st.none()), max_size=3)
-RESUMES = st.one_of(st.just(NOVALUE), st.integers(0, 3), st.sampled_from(['v', '']), st.none(), st.lists(st.integers(0, 1), max_size=2))
+RESUMES = st.one_of(st.just(NOVALUE), st.integers(0, 3), st.sampled_from(['v', '']), st.none(), st.lists(st.integers(0, 1), max_size=2), st.just({'__exc__': 'an exception instance is a value too'}), st.just({'__tuple__': [1, 2]}), st.booleans())
 
 
 def enumerate_cases(tier, scope):
@@ -43,7 +43,7 @@ def enumerate_cases(tier, scope):
     lasts = [['value', 5], ['value', None], ['stop', 7, True], ['stop', 7, False], ['unsuccessful', 3], ['kill', 'bye'], ['kill', None], ['raise', 'e']]
     for first in firsts:
         for last in lasts:
-            for res in (NOVALUE, 'v', None, 0):
+            for res in (NOVALUE, 'v', None, 0, False, {'__exc__': 'boom'}, {'__tuple__': []}):
                 if first[0] != 'wait' and res != NOVALUE:
                     continue
                 for is_async in (False, True):
@@ -113,6 +113,25 @@ def model(program, resumes):
     raise AssertionError('model did not terminate')
 
 
+def _norm_value(value):
+    from ..programs import dec
+
+    value = dec(value)
+    if isinstance(value, BaseException):
+        return ['<exception>', type(value).__name__, [repr(a) for a in value.args]]
+    if isinstance(value, tuple):
+        return ['<tuple>'] + [_norm_value(v) for v in value]
+    if isinstance(value, list):
+        return [_norm_value(v) for v in value]
+    if isinstance(value, dict):
+        return {k: _norm_value(v) for k, v in value.items()}
+    return value
+
+
+def _norm_calls(calls):
+    return [(s, [_norm_value(x) for x in a], {k: _norm_value(x) for k, x in dict(kw).items()}) for s, a, kw in calls]
+
+
 def _check_outcome(summary, expected, v, where):
     if summary['state'] != expected['state']:
         v('final-state', f"{where}: {summary['state']} expected {expected['state']}")
@@ -147,7 +166,8 @@ def execute(case):
     ref = restore.run_reference(run_case, medium='pickle', resumes=full_resumes)
     if 'construct_error' in ref:
         return {'violations': [{'clause': 'construct', 'detail': repr(ref['construct_error'])}], 'nontrivial': False, 'classes': []}
-    got = [(s, list(a), dict(k)) for s, a, k in ref['steps']]
+    got = _norm_calls(ref['steps'])
+    exp_calls = _norm_calls(exp_calls)
     if got != exp_calls:
         v('continuation-args', f'executed {got} expected {exp_calls}')
     _check_outcome(ref['summary'], exp_outcome, v, 'uninterrupted')
@@ -164,8 +184,8 @@ def execute(case):
             if 'load_error' in run:
                 v('load-failed', f"checkpoint #{ckpt['index']} ({ckpt['state']}): {run['load_error']!r}")
                 continue
-            want = [(s, list(a), dict(k)) for s, a, k in restore.steps_after(ref, ckpt)]
-            got = [(s, list(a), dict(k)) for s, a, k in run['steps']]
+            want = _norm_calls(restore.steps_after(ref, ckpt))
+            got = _norm_calls(run['steps'])
             if got != want:
                 v('restored-continuation-args', f"restored at entry #{ckpt['index']} ({ckpt['state']}): executed {got} expected {want}")
             _check_outcome(run['summary'], exp_outcome, v, f"restored at entry #{ckpt['index']}")
